@@ -39,6 +39,11 @@ RULE = ('conn arm: 2-3 connections on a DB over FileStorage (simulated '
         'objects changed again later, so that the undo must merge -- in a '
         'multi-undo against a record of the same undo transaction).  '
         'non-trivial = >= 1 resolution attempted; distinct = outcome trace')
+RULE += ('  '
+         'Later additions: resolvable classes whose __new__ requires, '
+         'or whose resolver depends on, the constructor arguments of '
+         'the record; an exception other than a conflict error from '
+         'store() is a violation. ')
 BUDGET = {'quick': {'runs': 10000, 'wall': 300, 'chunk': 25},
           'thorough': {'runs': 900000, 'wall': 1200, 'chunk': 100}}
 ASSUMPTIONS = [
